@@ -29,11 +29,13 @@ func HarnessBackup() {
 	at := zz.Choose(ncommits + 1) // the reader begins after `at` further commits
 	var rtx *Tx
 	var snap []zzKV
+	var size0 int64
 	begin := func() {
 		var err error
 		rtx, err = db.Begin(false)
 		zz.Assert(err == nil, "backup/reader-begin")
 		snap = zzDump(rtx)
+		size0 = rtx.Size()
 	}
 	for i := 0; i < ncommits; i++ {
 		if i == at {
@@ -56,6 +58,8 @@ func HarnessBackup() {
 		begin()
 	}
 	size := rtx.Size()
+	// the size of a snapshot does not change while other transactions commit
+	zz.Assert(size == size0, "backup/Size-is-stable-for-the-snapshot")
 	dst := zz.TempPath("backup.copy")
 	mode := zz.Choose(3)
 	switch mode {
@@ -88,6 +92,8 @@ func HarnessBackup() {
 	// both meta pages of the copy are valid and describe the snapshot (independent decoder)
 	im := zzDecode(zz.FileBytes(dst), c.pageSize)
 	zz.Assert(im.meta[0].ok && im.meta[1].ok, "backup/both-meta-pages-of-the-copy-valid")
+	// the copy is exactly the snapshot's pages: its length is its own high-water mark
+	zz.Assert(int64(im.m.hwm)*int64(c.pageSize) == size, "backup/copy-length-is-the-snapshots-high-water-mark")
 	zz.Assert(im.meta[0].root == im.meta[1].root && im.meta[0].hwm == im.meta[1].hwm && im.meta[0].freelist == im.meta[1].freelist, "backup/metas-describe-the-same-tree")
 	// the copy opens and holds the snapshot, all pages accounted for
 	cdb := zzMustOpen(dst, c, "backup/open-copy")
